@@ -148,22 +148,64 @@ func c13DateClauses(recs []sm.Record) []c13Clause {
 	return out
 }
 
-var c13TagQueries = [][]string{{"a"}, {"#A"}, {"a=1"}, {"a='1'"}, {"b"}, {"a", "b"}, {"#a=2", "b"}, {"tag"}, {"TAG=v"}, {"tag=\"v 1\""}, {"x"}, {"x=y"}, {"z", "x"}, {"s"}, {"s=1"}, {"nope"}, {"c"}}
-
-func c13TagClauses() []c13Clause {
+// c13TagClauses derives the tag queries from the tags the file itself contains (bare name, other
+// case, with value unquoted and quoted, a wrong value, pairs) plus absent ones.
+func c13TagClauses(recs []sm.Record) []c13Clause {
+	seen := map[string]bool{}
+	var qs [][]string
+	add := func(q ...string) {
+		k := strings.Join(q, "\x00")
+		if !seen[k] {
+			seen[k] = true
+			qs = append(qs, q)
+		}
+	}
+	var names []string
+	for _, r := range recs {
+		var all []sm.Tag
+		all = append(all, sm.ScanSummaryTags(r.Summary)...)
+		for _, e := range r.Entries {
+			all = append(all, sm.ScanSummaryTags(e.Summary)...)
+		}
+		for _, t := range all {
+			add(t.Name)
+			add("#" + strings.ToUpper(t.Name))
+			names = append(names, t.Name)
+			if t.Value != "" {
+				if !strings.ContainsAny(t.Value, " \"'") {
+					add(t.Name + "=" + t.Value)
+					add(t.Name + "='" + t.Value + "'")
+					add(strings.ToUpper(t.Name) + "=" + strings.ToUpper(t.Value))
+				} else if !strings.Contains(t.Value, "\"") {
+					add(t.Name + "=\"" + t.Value + "\"")
+				}
+				add(t.Name + "=wrong")
+			}
+		}
+	}
+	for i := 0; i+1 < len(names) && i < 6; i++ {
+		if names[i] != names[i+1] {
+			add(names[i], names[i+1])
+		}
+	}
+	add("nope")
+	add("nope", "a")
 	var out []c13Clause
-	for _, q := range c13TagQueries {
+	for _, q := range qs {
 		var tags []sm.Tag
 		var args []string
+		ok := true
 		for _, t := range q {
-			rt, ok := refQuery(t)
-			if !ok {
-				harnessFatal("bad tag query %q", t)
+			rt, okq := refQuery(t)
+			if !okq {
+				ok = false
 			}
 			tags = append(tags, rt)
-			args = append(args, "--tag", t)
+			args = append(args, "--tag="+t)
 		}
-		out = append(out, c13Clause{kind: "tag", args: args, recTags: tags})
+		if ok {
+			out = append(out, c13Clause{kind: "tag", args: args, recTags: tags})
+		}
 	}
 	return out
 }
@@ -254,7 +296,7 @@ func c13Combos(file int) [][]c13Clause {
 		harnessFatal("C13 base file %d is not valid: %s line %d", file, ref.Rule, ref.Line)
 	}
 	dates := c13DateClauses(ref.Records)
-	tags := c13TagClauses()
+	tags := c13TagClauses(ref.Records)
 	types := c13TypeClauses()
 	var out [][]c13Clause
 	for _, d := range dates {
@@ -311,7 +353,7 @@ func init() {
 		Title: "Filters and sorting select exactly the matching data and never alter it",
 		Rule: "7 base files (<=4 records; calendar edges, duplicate and unsorted dates, tags at record and entry level with and without values, mixed case, every entry kind) x clauses: " +
 			"--date/--since/--until/--after/--before for every record date +-1 and thinned pairs, --period for every year/month/quarter/ISO week containing or adjacent to a record date, " +
-			"all 14 relative shortcuts under clocks at every record date + {0,+-1,+-7,+-31,92,366} days, 17 tag queries (case variants, values, quoted values, two tags), 6 entry-type spellings; " +
+			"all 14 relative shortcuts under clocks at every record date + {0,+-1,+-7,+-31,92,366} days, tag queries derived from the file's own tags (bare, other case, value unquoted/quoted/upper-cased/wrong, pairs) plus absent ones, 6 entry-type spellings; " +
 			"all pairs tag x type, date x tag and date x type (dates thinned 1/9) and triples (1/41); each also with --sort asc and desc on a fixed stride; plus ALL 2^13+2^14 date assignments of 13/14 records over two dates for the sort itself. " +
 			"A case = (file, flags, clock); distinct by that triple.",
 		Assumptions: []string{
